@@ -1,0 +1,3 @@
+// Package vpoint exposes the verification hook points of the module to an external harness.
+// Everything except this file is guarded by the build tag `verif`.
+package vpoint
